@@ -572,6 +572,17 @@ def run(ctx):
                 ctx.bad(R_copy, key, where, "copy length is not bounded by the caller's size parameter (%s)" % ", ".join(int_params.values()),
                         "more bytes than the caller's buffer holds can be written: heap/stack corruption in the C caller")
 
+    # local helpers that always report an error code (every return passes set_last_error(k != 0))
+    reporters = set()
+    for g in st.fn_list:
+        if g.kind == "Closure":
+            continue
+        eb = [b_ for b_, t_ in mirg.iter_calls(g) if (ncallee(t_) or "").endswith("set_last_error") and t_["a"] and (mirg.op_int(t_["a"][0]) or 0) != 0]
+        if eb:
+            cg_ = mirg.Cfg(g)
+            if cg_.must_pass(eb, cg_.returns())[0]:
+                reporters.add(norm(g.path))
+
     # lookups fail closed
     for f in st.fn_list:
         x = fl.get(f.path)
@@ -622,6 +633,8 @@ def run(ctx):
                     err_blocks.add(b3)
                 if c3.endswith("set_last_error") and t3["a"] and mirg.op_int(t3["a"][0]) is None:
                     err_blocks.add(b3)        # computed error code
+                if c3 in reporters:
+                    err_blocks.add(b3)
                 if re.search(r"HashMap::(get|get_mut|remove|contains_key)$", c3) and b3 != bb:
                     err_blocks.add(b3)
             # follow the Option to the branch on it
